@@ -13,6 +13,7 @@ pub mod c12;
 pub mod c13;
 pub mod c14;
 pub mod c15;
+pub mod c16;
 pub mod c19;
 
 use crate::run::RunCtx;
@@ -34,6 +35,7 @@ pub fn dispatch(prop: &str, rc: &mut RunCtx) -> bool {
         "C13" => c13::run(rc),
         "C14" => c14::run(rc),
         "C15" => c15::run(rc),
+        "C16" => c16::run(rc),
         "C19" => c19::run(rc),
         _ => return false,
     }
